@@ -1,5 +1,6 @@
 (* line protocol (strings are space-separated decimal code points):
      S <cps>        -> helper.string            : cps joined by ","
+     U <cps>        -> helper.string(v, False)  (the call of helper.uri)
      V <cps>        -> helper.stringvalue       : CRASH | cps
      T <cps>        -> Base._stringtokenvalue(('STRING', <cps>, 1, 1)) : CRASH | NONE | cps
      F <fs> <cps>   -> first token of the text and its string value:  NONE | ty|val|(CRASH|NONE|cps)  *)
@@ -20,6 +21,7 @@ let () =
       let parts = List.filter (fun x -> x <> "") (String.split_on_char ' ' line) in
       match parts with
       | "S" :: cps -> print_endline (str_out (hstring (str_in cps)))
+      | "U" :: cps -> print_endline (str_out (hstring_uri (str_in cps)))
       | "V" :: cps -> (match hstringvalue (str_in cps) with Crash -> print_endline "CRASH" | Ok v -> print_endline ("=" ^ str_out v))
       | "T" :: cps ->
         let t = { ty = []; raw = []; val0 = str_in cps; line = O; col = O } in
